@@ -499,8 +499,9 @@ func init() {
 func receiverWriteFacts(repo string) ([]string, error) {
 	var facts []string
 	pooled := pooledOnlyTypes(repo)
+	var owned map[string]bool
 	perSearch := func(t string) bool {
-		if pooled[t] {
+		if pooled[t] || owned[t] {
 			return true
 		}
 		for _, suf := range []string{"State", "Cache", "Set", "Table", "Queue", "Stack", "Config", "Compiler", "Extractor", "Seq", "Iter", "Error", "Stats", "Pool", "Slots", "Buf", "Budget"} {
@@ -510,6 +511,7 @@ func receiverWriteFacts(repo string) ([]string, error) {
 		}
 		return false
 	}
+	owned = ownedOnlyTypes(repo, func(t string) bool { return perSearch(t) })
 	configTime := func(name string) bool {
 		for _, pre := range []string{"Set", "New", "new", "build", "Build", "Compile", "compile", "init", "Init", "Reset", "reset", "add", "Add", "With", "Unmarshal", "Longest", "ensure", "lazyInit"} {
 			if strings.HasPrefix(name, pre) {
@@ -646,6 +648,71 @@ func unsafeTypesOf(rw []string) map[string]bool {
 		}
 		if a, b := strings.Index(typ, "(*"), strings.Index(typ, ")"); a >= 0 && b > a {
 			out[typ[a+2:b]] = true
+		}
+	}
+	return out
+}
+
+// ownedOnlyTypes: per-search ownership is transitive.  A struct type T declared in the search packages is per-search if it is
+// held — as a field of type T, *T, []T or []*T — ONLY by struct types that are themselves per-search (by `base`, or by this
+// rule), and by at least one: a value of T is then reachable only through a per-search owner (a *DFACache, a *SearchState, a
+// pooled scratch object), so a method of T that writes its receiver writes per-search state.  A T held by any shared type
+// (Engine, DFA, a searcher) is not in the result and stays subject to the receiver-write facts.
+func ownedOnlyTypes(repo string, base func(string) bool) map[string]bool {
+	holders := map[string]map[string]bool{}
+	declared := map[string]bool{}
+	for _, d := range []string{"meta", "dfa/lazy", "nfa", "dfa/onepass", "prefilter", "simd", "literal", "."} {
+		fs := token.NewFileSet()
+		pkgs, err := parser.ParseDir(fs, filepath.Join(repo, d), func(fi os.FileInfo) bool { return !strings.HasSuffix(fi.Name(), "_test.go") }, 0)
+		if err != nil {
+			continue
+		}
+		for _, pkg := range pkgs {
+			for _, f := range pkg.Files {
+				ast.Inspect(f, func(n ast.Node) bool {
+					ts, ok := n.(*ast.TypeSpec)
+					if !ok {
+						return true
+					}
+					st, ok := ts.Type.(*ast.StructType)
+					if !ok {
+						return true
+					}
+					declared[ts.Name.Name] = true
+					for _, fld := range st.Fields.List {
+						var buf bytes.Buffer
+						printer.Fprint(&buf, fs, fld.Type)
+						for _, tok := range strings.FieldsFunc(buf.String(), func(r rune) bool {
+							return !(r == '_' || r >= 'a' && r <= 'z' || r >= 'A' && r <= 'Z' || r >= '0' && r <= '9')
+						}) {
+							if holders[tok] == nil {
+								holders[tok] = map[string]bool{}
+							}
+							holders[tok][ts.Name.Name] = true
+						}
+					}
+					return true
+				})
+			}
+		}
+	}
+	out := map[string]bool{}
+	for changed := true; changed; {
+		changed = false
+		for t, hs := range holders {
+			if !declared[t] || out[t] || len(hs) == 0 {
+				continue
+			}
+			all := true
+			for s := range hs {
+				if s != t && !base(s) && !out[s] {
+					all = false
+				}
+			}
+			if all {
+				out[t] = true
+				changed = true
+			}
 		}
 	}
 	return out
